@@ -43,6 +43,7 @@ type HarnessCfg struct {
 	PkgPath   string
 	MethodSetHook func(e *Exec, x Iface, it *types.Interface) (bool, bool)
 	SymMethods bool
+	ReplayCuts bool
 }
 
 type Loaded struct {
@@ -275,6 +276,8 @@ func (l *Loaded) parseDirective(h *HarnessCfg, sp *ssa.Package, line string) {
 		h.SymBytes = true
 	case "timers":
 		h.Timers = true
+	case "replay-with-cuts":
+		h.ReplayCuts = true
 	case "twin":
 		h.Twin = true
 	case "symmethods":
